@@ -83,6 +83,8 @@ def surrounding(rng, tag, rich, same_names=()):
         *([["def zq_first_{0}[ZqT](zq_xs: list[ZqT]) -> ZqT:".format(tag), "    return zq_xs[0]", "",
             "class ZqBox_{0}[ZqT: (int, str)]:".format(tag), "    def zq_map[ZqU](self, zq_f) -> ZqU:", "        return zq_f(self)"]]
           if sys.version_info >= (3, 12) else []),
+        # an "attribute docstring": a bare multi-line string statement right after a constant (not in docstring position)
+        ["ZQ_TIMEOUT_{0} = 30".format(tag), '"""Seconds to wait zq_{0}.'.format(tag), "    Zero disables zq it.", '"""'],
         # a plain function whose PARAMETERS carry the targets' simple names
         ["def zq_build_{0}(ConfigClass, f_target=3, *, set_cli_args=None):".format(tag), "    return ConfigClass, f_target, set_cli_args"],
         ["def zq_make_{0}(zq_first, set_cli_args=None, f_target=3, ConfigClass=dict):".format(tag), "    return zq_first, ConfigClass"],
